@@ -10,6 +10,7 @@ mod gen_bin;
 mod gen_pred;
 mod gen_sent;
 mod gen_train;
+mod kytea;
 mod train;
 mod train_tags;
 mod model;
@@ -35,6 +36,7 @@ fn main() {
             match family.as_str() {
                 "C01" => gen_pred::gen_c01(&mut out, thorough, seed),
                 "C09" | "C10" | "C11" | "C12" => gen_train::gen(&mut out, family, thorough, seed),
+                "C17" => kytea::gen(&mut out, thorough, seed),
                 "C14" => gen_pred::gen_c14(&mut out, thorough, seed),
                 "C13" => gen_pred::gen_c13(&mut out, thorough, seed),
                 "C15" => gen_sent::gen_c15(&mut out, thorough, seed),
@@ -106,6 +108,7 @@ fn run_case(line: &str, fails: &mut Vec<(String, String)>, effective: &mut Optio
         [k, ..] if matches!(*k, "B" | "RS" | "RX" | "RF" | "WF") => bin::run(&toks, fails),
         ["E", ..] => pred::run_e(&toks, fails),
         ["TR", ..] => train::run(&toks, fails, effective),
+        [k, ..] if matches!(*k, "KY" | "KYE" | "KYX") => kytea::run(&toks, fails),
         _ => "bad-case".into(),
     }
 }
